@@ -275,14 +275,8 @@ impl Check for C05 {
                         // quick: bound 0 everywhere and bound 1 on the symmetric-latency diagonal
                         let diag = lab == lba && (off == 0 || off == 3 || off == -7);
                         let bound = match tier {
-                            Tier::Quick => usize::from(diag && lab == 5),
-                            Tier::Thorough => {
-                                if diag {
-                                    2
-                                } else {
-                                    1
-                                }
-                            }
+                            Tier::Quick => 1 + usize::from(diag && lab == 5),
+                            Tier::Thorough => 2 + usize::from(diag && lab == 5 && off == 0),
                         };
                         u.push(json!({"kind":"simnet","a_greater":a_greater,"offset_ms":off,"lat_ab_ms":lab,"lat_ba_ms":lba,"bound":bound,"fate_budget":60}));
                     }
